@@ -1,6 +1,6 @@
 SPECIFICATION Spec
 CONSTANTS
-  NRand = 120
+  NRand = 60
   MaxStmts = 3
   EDepth = 2
   SDepth = 2
